@@ -12,11 +12,15 @@
      minute is missed and none is started twice; Stop only on running DAGs; Restart at each matching minute; an
      unloadable file never affects the other DAGs.
    It fails for: a schedule without activation up to the end of year+5 (F9a: Next = zero time, invoked at every
-   tick), two start schedules matching one minute (F9b: two Starts), a file on which the loader panics (F13a/b:
-   the daemon dies).  The _partial theorems carry exactly these exclusions as decidable premises. *)
+   tick) and two start schedules matching one minute (F9b: two Starts).  The _partial theorems carry exactly these
+   exclusions as decidable premises.  The third failure found - a file on which the schedule loader panicked
+   killed the daemon (F13a unknown key of the schedule map, F13b zone prefix without a spec) - was repaired in
+   /repo (c2912bd, 519d0a6); the model follows the repaired code and the clauses "no minute is missed" and
+   "an unloadable file never affects the other DAGs" are proved in full (C09_no_miss, C09_bad_file_others,
+   C09_alive). *)
 From Coq Require Import List String ZArith Bool.
 Import ListNotations.
-From BD.Cron Require Import Model Schedule ProofsCal ProofsNext.
+From BD.Cron Require Import Model Schedule ProofsCal ProofsNext ProofsSched.
 From BD.Daemon Require Import Model ProofsTick Proofs ProofsSeq Witness.
 Local Open Scope Z_scope.
 
@@ -217,45 +221,54 @@ Theorem C09_invariant_init : forall d, NoDup (map fst d) -> Inv (init_state d).
 Proof. exact init_inv. Qed.
 Print Assumptions C09_invariant_init.
 
-(* full statement: the same without `alive s = true`                          (false: C09_no_miss_refuted) *)
-Theorem C09_no_miss_partial : forall s0 ops, Inv s0 ->
+(* the schedule loader returns a value or an error for every YAML value - it never panics *)
+Theorem C09_loader_no_panic : forall v, build_schedule v <> PPanic.
+Proof. exact build_schedule_no_panic. Qed.
+Print Assumptions C09_loader_no_panic.
+
+Theorem C09_parse_cron_no_panic : forall str, parse_cron str <> PPanic.
+Proof. exact parse_cron_no_panic. Qed.
+Print Assumptions C09_parse_cron_no_panic.
+
+(* a started daemon stays alive over every history, whatever is written to the directory *)
+Theorem C09_alive : forall ops s0, alive s0 = true -> forall s o cs, In (s, o, cs) (trace s0 ops) -> alive s = true.
+Proof. exact alive_always. Qed.
+Print Assumptions C09_alive.
+
+Theorem C09_restart_alive : forall s, alive (fst (step s ORestart)) = true.
+Proof. exact restart_alive_always. Qed.
+Print Assumptions C09_restart_alive.
+
+(* no scheduled minute is missed: in every history, once the daemon has been started, every tick that happens
+   issues the Start of every loadable DAG file of the directory (present from the start, added or edited since)
+   whose guard holds *)
+Theorem C09_no_miss : forall s0 pre post, Inv s0 ->
+  forall s m w cs, In (s, OTick m w, cs) (trace (final s0 (pre ++ [ORestart])) post) ->
+  forall f c e sp, lookup f (dir s) = Some c -> load f c = FOk e -> In sp (starts e) -> matches sp m = true ->
+  mem f (susp s) = false -> start_guard (status_of s f) m = true -> In (CStart f) cs.
+Proof. exact no_miss_started. Qed.
+Print Assumptions C09_no_miss.
+
+Theorem C09_no_miss_alive : forall s0 ops, Inv s0 ->
   forall s m w cs, In (s, OTick m w, cs) (trace s0 ops) -> alive s = true ->
   forall f c e sp, lookup f (dir s) = Some c -> load f c = FOk e -> In sp (starts e) -> matches sp m = true ->
   mem f (susp s) = false -> start_guard (status_of s f) m = true -> In (CStart f) cs.
 Proof. exact no_miss. Qed.
-Print Assumptions C09_no_miss_partial.
+Print Assumptions C09_no_miss_alive.
 
-Theorem C09_no_miss_stop_partial : forall s0 ops, Inv s0 ->
+Theorem C09_no_miss_stop : forall s0 ops, Inv s0 ->
   forall s m w cs, In (s, OTick m w, cs) (trace s0 ops) -> alive s = true ->
   forall f c e sp, lookup f (dir s) = Some c -> load f c = FOk e -> In sp (stops e) -> matches sp m = true ->
   mem f (susp s) = false -> stop_guard (status_of s f) = true -> In (CStop f) cs.
 Proof. exact no_miss_stop. Qed.
-Print Assumptions C09_no_miss_stop_partial.
+Print Assumptions C09_no_miss_stop.
 
-Theorem C09_no_miss_restart_partial : forall s0 ops, Inv s0 ->
+Theorem C09_no_miss_restart : forall s0 ops, Inv s0 ->
   forall s m w cs, In (s, OTick m w, cs) (trace s0 ops) -> alive s = true ->
   forall f c e sp, lookup f (dir s) = Some c -> load f c = FOk e -> In sp (restarts e) -> matches sp m = true ->
   mem f (susp s) = false -> In (CRestart f) cs.
 Proof. exact no_miss_restart. Qed.
-Print Assumptions C09_no_miss_restart_partial.
-
-(* the daemon stays alive over every history in which no file content makes the loader panic *)
-Theorem C09_alive_partial : forall ops s0, dir_safe s0 -> Forall op_safe ops -> alive s0 = true ->
-  forall s o cs, In (s, o, cs) (trace s0 ops) -> alive s = true.
-Proof. exact alive_stable. Qed.
-Print Assumptions C09_alive_partial.
-
-Theorem C09_restart_alive_partial : forall s, dir_safe s -> alive (fst (step s ORestart)) = true.
-Proof. exact restart_alive. Qed.
-Print Assumptions C09_restart_alive_partial.
-
-(* F13a *)
-Theorem C09_no_miss_refuted : exists d ops s m w cs f c e sp,
-  NoDup (map fst d) /\ In (s, OTick m w, cs) (trace (init_state d) ops) /\
-  lookup f (dir s) = Some c /\ load f c = FOk e /\ In sp (starts e) /\ matches sp m = true /\
-  mem f (susp s) = false /\ start_guard (status_of s f) m = true /\ ~ In (CStart f) cs.
-Proof. exact no_miss_refuted_scan. Qed.
-Print Assumptions C09_no_miss_refuted.
+Print Assumptions C09_no_miss_restart.
 
 (* full statement: the same without the `at most one due start schedule` conjunct of step_ok
                                                                               (false: C09_no_double_refuted) *)
@@ -289,18 +302,24 @@ Theorem C09_bad_file_scan : forall s t, NoDup (map fst (dir s)) -> scan (dir s) 
 Proof. exact bad_file_scan. Qed.
 Print Assumptions C09_bad_file_scan.
 
-Theorem C09_other_files_kept_partial : forall s f c h, h <> f -> panics f c = false ->
+(* in full: whatever is written to file f, the entries of every other file stay as they are, and the daemon lives *)
+Theorem C09_bad_file_others : forall s f c h, h <> f ->
   lookup h (tbl (fst (step s (OWrite f c)))) = lookup h (tbl s).
-Proof. exact other_files_kept. Qed.
-Print Assumptions C09_other_files_kept_partial.
+Proof. exact bad_file_others. Qed.
+Print Assumptions C09_bad_file_others.
 
-(* F13b *)
-Theorem C09_bad_file_refuted : exists s f c h e,
-  alive s = true /\ h <> f /\ lookup h (tbl s) = Some e /\
-  alive (fst (step s (OWrite f c))) = false /\ tick_calls (fst (step s (OWrite f c))) m0 = [] /\
-  In (CStart h) (tick_calls s m0).
-Proof. exact bad_file_refuted_watcher. Qed.
-Print Assumptions C09_bad_file_refuted.
+Theorem C09_write_keeps_alive : forall s f c, alive (fst (step s (OWrite f c))) = alive s.
+Proof. exact write_keeps_alive. Qed.
+Print Assumptions C09_write_keeps_alive.
+
+(* the inputs that used to kill the daemon (F13a, F13b) *)
+Example C09_former_loader_panics :
+  run (init_state d_f13a) [ORestart; OTick m0 (60 * m0)] = [[]; [CStart "d0.yaml"]]%string /\
+  alive (final (init_state d_f13a) [ORestart]) = true /\
+  run (init_state d_good) [ORestart; OWrite "d1.yaml" (file (SStr "CRON_TZ=UTC")); OTick m0 (60 * m0)]%string = [[]; []; [CStart "d0.yaml"]]%string /\
+  load "d1.yaml" (file (SStr "CRON_TZ=UTC"))%string = FErr /\
+  load "d1.yaml" (file (SMap [(KStr "begin", MStr "* * * * *")]))%string = FErr.
+Proof. exact former_loader_panics_are_errors. Qed.
 
 (* a history satisfying all premises at once: lag, bunched ticks, a restart inside a ticked minute, a bad file, a
    file added while the daemon runs *)
